@@ -183,6 +183,12 @@ package dsl
 //@   ensures a_walk_error_is_returned: err != nil ==> result == err
 //@   ensures every_model_file_is_collected: err == nil && info != nil && !info.IsDir() && (hasSuffix(info.Name(), ".yml") || hasSuffix(info.Name(), ".yaml")) && info.Name() != "_package.yml" ==> len(paths) == old(len(paths)) + 1 && paths[len(paths)-1] == path
 //@   ensures nothing_else_is_collected: err == nil && info != nil && (info.IsDir() || !(hasSuffix(info.Name(), ".yml") || hasSuffix(info.Name(), ".yaml")) || info.Name() == "_package.yml") ==> len(paths) == old(len(paths))
+// C12/C13: the model files are read in the order of their paths, whatever order the directory walk lists them in
+// (the definitions of all files are concatenated in that order).
+//@ func ParseYamlInDir$2
+//@   property C12,C13
+//@   requires 0 <= i && i < len(paths) && 0 <= j && j < len(paths)
+//@   ensures files_are_ordered_by_path: result == (paths[i] < paths[j])
 //@ func ParseYamlInDir
 //@   property C11,C09
 //@   ensures an_incomplete_directory_walk_is_an_error: errSeen(filepath.Walk) ==> result1 != nil
@@ -585,6 +591,9 @@ package dsl
 //@   property C09,C08
 //@   ensures negation_is_type_checked: typeof(node) == *UnaryExpression && typeof(result) == *UnaryExpression && result.(*UnaryExpression) != nil && negated(result) != nil && negated(result).GetResolvedType() != nil ==> called(GetKindIfPrimitive)
 //@   ensures negation_needs_a_numeric_operand: typeof(node) == *UnaryExpression && called(GetKindIfPrimitive) && !(lastResult(GetKindIfPrimitive).ok && (lastResult(GetKindIfPrimitive).primitiveKind == PrimitiveKindInteger || lastResult(GetKindIfPrimitive).primitiveKind == PrimitiveKindFloatingPoint || lastResult(GetKindIfPrimitive).primitiveKind == PrimitiveKindComplexFloatingPoint)) ==> called("validation.(*ErrorSink).Add")
+// "ill-typed computed field": a binary operator needs two numeric operands that have a common type: when no common type
+// exists the expression is an error (and is returned as it is, without a resolved type).
+//@   ensures operands_without_a_common_type_are_an_error: typeof(node) == *BinaryExpression && called(GetCommonType) && lastResult(GetCommonType).r1 != nil && !called("dsl.resolveSwitchCase") ==> called("validation.(*ErrorSink).Add")
 // A subscript on an array needs at least one index, also when the array's rank is unknown (`d: int[]`, `d[]` would be
 // printed as `self.d[]`), and can only name dimensions that the array declares.
 //@   ensures array_subscript_without_arguments_is_an_error: typeof(node) == *SubscriptExpression && called(ToGeneralizedType) && lastResult(ToGeneralizedType) != nil && typeof(lastResult(ToGeneralizedType).Dimensionality) == *Array && lastResult(ToGeneralizedType).Dimensionality.(*Array) != nil && (lastResult(ToGeneralizedType).Dimensionality.(*Array).Dimensions == nil || len(*lastResult(ToGeneralizedType).Dimensionality.(*Array).Dimensions) > 0) && typeof(result) == *SubscriptExpression && result.(*SubscriptExpression) != nil && len(result.(*SubscriptExpression).Arguments) == 0 ==> called("validation.(*ErrorSink).Add")
@@ -597,6 +606,49 @@ package dsl
 // case itself, nor the old running type.
 //@   iteration 16: the_type_of_a_switch_is_folded_with_the_common_type: calls(GetCommonType) > old(calls(GetCommonType)) ==> next(commonType) == lastResult(GetCommonType).r0
 //@   iteration 16: a_case_without_a_type_leaves_the_running_type: commonType != nil && calls(GetCommonType) == old(calls(GetCommonType)) ==> next(commonType) == commonType
+
+// ---- C06 / C13 / C09: type equality, the comparison that the union rules, the switch patterns and the evolution checks
+// share. Written from what the binary format distinguishes: a type reference never equals a union/collection; unions
+// with a different number of cases differ; collections of different kind differ; a fixed-length vector never equals a
+// dynamic one, nor one of another length; arrays of different rank differ. (Aliases are looked through first.)
+//@ spec func ugt(t Type) *GeneralizedType = GetUnderlyingType(t).(*GeneralizedType)
+//@ spec func isGT(t Type) bool = typeof(GetUnderlyingType(t)) == *GeneralizedType && GetUnderlyingType(t).(*GeneralizedType) != nil
+//@ spec func isST(t Type) bool = typeof(GetUnderlyingType(t)) == *SimpleType && GetUnderlyingType(t).(*SimpleType) != nil
+//@ spec func vecOf(t Type) *Vector = ugt(t).Dimensionality.(*Vector)
+//@ spec func isVec(t Type) bool = isGT(t) && typeof(ugt(t).Dimensionality) == *Vector && ugt(t).Dimensionality.(*Vector) != nil
+//@ func TypesEqual
+//@   property C06,C13,C09
+//@   ensures a_type_equals_itself: a == b ==> result
+//@   ensures a_missing_type_equals_only_a_missing_type: a != b && ((a == nil) != (b == nil)) ==> !result
+//@   ensures a_reference_never_equals_a_union_or_collection: a != nil && b != nil && a != b && ((isST(a) && isGT(b)) || (isGT(a) && isST(b))) ==> !result
+//@   ensures a_different_number_of_cases_differs: a != nil && b != nil && a != b && isGT(a) && isGT(b) && len(ugt(a).Cases) != len(ugt(b).Cases) ==> !result
+//@   ensures a_scalar_never_equals_a_collection: a != nil && b != nil && a != b && isGT(a) && isGT(b) && ((ugt(a).Dimensionality == nil) != (ugt(b).Dimensionality == nil)) ==> !result
+//@   ensures a_fixed_vector_never_equals_a_dynamic_one: a != nil && b != nil && a != b && isVec(a) && isVec(b) && ((vecOf(a).Length == nil) != (vecOf(b).Length == nil)) ==> !result
+//@   ensures vectors_of_different_length_differ: a != nil && b != nil && a != b && isVec(a) && isVec(b) && vecOf(a).Length != nil && vecOf(b).Length != nil && *vecOf(a).Length != *vecOf(b).Length ==> !result
+//@   ensures a_vector_never_equals_another_kind_of_collection: a != nil && b != nil && a != b && isVec(a) && isGT(b) && ugt(b).Dimensionality != nil && typeof(ugt(b).Dimensionality) != *Vector ==> !result
+
+// ---- C18 "its types are usable under their namespace from every package" / C09 "unknown type reference" / C13 "primitive
+// aliases": a name is looked up as a primitive (or primitive alias) first, then as written (a qualified name
+// `Namespace.Type` from any package), then inside the namespace of the reference; a protocol is not a type; anything
+// else is an error, never a nil definition without an error.
+//@ spec func qualifiedIn(ns string, name string) string = ns + "." + name
+//@ func resolveTypeByName
+//@   property C18,C09,C13
+//@   ensures a_primitive_name_is_the_primitive: (typeName in primitiveTypes) ==> result1 == nil && result0 == primitiveTypes[typeName]
+//@   ensures a_qualified_name_is_looked_up_as_written: !(typeName in primitiveTypes) && (typeName in symbolTable) && typeof(symbolTable[typeName]) != *ProtocolDefinition ==> result1 == nil && result0 == symbolTable[typeName]
+//@   ensures an_unqualified_name_is_looked_up_in_the_namespace_of_the_reference: !(typeName in primitiveTypes) && !(typeName in symbolTable) && (qualifiedIn(currentNamespace, typeName) in symbolTable) && typeof(symbolTable[qualifiedIn(currentNamespace, typeName)]) != *ProtocolDefinition ==> result1 == nil && result0 == symbolTable[qualifiedIn(currentNamespace, typeName)]
+//@   ensures an_unknown_name_is_an_error: !(typeName in primitiveTypes) && !(typeName in symbolTable) && !(qualifiedIn(currentNamespace, typeName) in symbolTable) ==> result1 != nil && result0 == nil
+//@   ensures a_protocol_is_not_a_type: !(typeName in primitiveTypes) && (typeName in symbolTable) && typeof(symbolTable[typeName]) == *ProtocolDefinition ==> result1 != nil
+
+// C09 "duplicate name": a definition whose qualified name is already in the symbol table is an error and does not
+// replace the first one; a definition named like a primitive is an error; otherwise it is entered under
+// `Namespace.Name`, which is the name other packages use for it.
+//@ func buildSymbolTable$1
+//@   property C09,C18
+//@   requires errorSink != nil && env != nil
+//@   ensures a_second_definition_of_a_name_is_an_error: typeof(node) != *Namespace && typeof(node) == TypeDefinition && old(node.(TypeDefinition).GetDefinitionMeta().Name) != "" && !(old(node.(TypeDefinition).GetDefinitionMeta().Name) in primitiveTypes) && old(qualifiedIn(namespace, node.(TypeDefinition).GetDefinitionMeta().Name) in env.SymbolTable) ==> len(errorSink.Errors) > old(len(errorSink.Errors)) && env.SymbolTable[qualifiedIn(namespace, old(node.(TypeDefinition).GetDefinitionMeta().Name))] == old(env.SymbolTable[qualifiedIn(namespace, node.(TypeDefinition).GetDefinitionMeta().Name)])
+//@   ensures a_reserved_name_is_an_error: typeof(node) != *Namespace && typeof(node) == TypeDefinition && (old(node.(TypeDefinition).GetDefinitionMeta().Name) in primitiveTypes) ==> len(errorSink.Errors) > old(len(errorSink.Errors))
+//@   ensures a_new_definition_is_entered_under_its_qualified_name: typeof(node) != *Namespace && typeof(node) == TypeDefinition && old(node.(TypeDefinition).GetDefinitionMeta().Name) != "" && !(old(node.(TypeDefinition).GetDefinitionMeta().Name) in primitiveTypes) && !old(qualifiedIn(namespace, node.(TypeDefinition).GetDefinitionMeta().Name) in env.SymbolTable) ==> (qualifiedIn(namespace, old(node.(TypeDefinition).GetDefinitionMeta().Name)) in env.SymbolTable) && env.SymbolTable[qualifiedIn(namespace, old(node.(TypeDefinition).GetDefinitionMeta().Name))] == node.(TypeDefinition)
 
 // ---- C09 "ill-typed computed field" / C19 static type: the built-in functions. A call with the wrong number of
 // arguments is an error; whatever comes back (the call itself or the literal it was simplified to) has type `size`.
@@ -864,6 +916,10 @@ package dsl
 // two spellings build different trees (the expanded form keeps the element cases on the collection node itself), and
 // both must be accepted.
 //@   property C13
+// "ill-formed union": null is only allowed as the first option; two cases may not have the same tag.
+//@   iteration 0: null_is_only_allowed_as_the_first_option: old(typeCase.IsNullType()) && i != 0 ==> len(errorSink.Errors) > old(len(errorSink.Errors))
+//@   iteration 5: two_cases_with_one_tag_are_an_error: item != nil && old(item.Tag in tags) ==> len(errorSink.Errors) > old(len(errorSink.Errors))
+//@   ensures a_union_without_options_is_an_error: typeof(node) == *GeneralizedType && node.(*GeneralizedType) != nil && old(len(node.(*GeneralizedType).Cases)) == 0 ==> called("validation.(*ErrorSink).Add")
 //@   iteration 1: a_collection_of_unions_is_not_a_nested_union: typeof(typeCase.Type) == *GeneralizedType && typeCase.Type.(*GeneralizedType) != nil && typeCase.Type.(*GeneralizedType).Dimensionality != nil ==> len(errorSink.Errors) == old(len(errorSink.Errors))
 //@   iteration 1: a_union_case_that_is_a_union_is_an_error: typeof(typeCase.Type) == *GeneralizedType && typeCase.Type.(*GeneralizedType) != nil && typeCase.Type.(*GeneralizedType).Dimensionality == nil && len(typeCase.Type.(*GeneralizedType).Cases) > 1 ==> len(errorSink.Errors) == old(len(errorSink.Errors)) + 1
 
